@@ -62,6 +62,10 @@ type Harness struct {
 	Deadline func(tier string) time.Duration
 	// Extra is merged into coverage.
 	Extra func() map[string]any
+	// Static is an optional non-scheduler part of the check (e.g. an explicit-state search over a model
+	// extracted from the source); it runs once in the coordinator, its violations are classified like the
+	// others and its coverage keys are merged into the evidence.
+	Static func() ([]Violation, map[string]any)
 }
 
 type item struct {
@@ -372,6 +376,15 @@ func coordinatorMain(h *Harness) {
 	total := reply{Outcomes: map[string]int{}, Inconclusive: map[string]int{}}
 	var viols []foundViolation
 	sigCount := map[string]int{}
+	var staticCov map[string]any
+	if h.Static != nil && *flagOnly == "" {
+		sv, cov := h.Static()
+		staticCov = cov
+		for _, v := range sv {
+			sigCount[v.Sig]++
+			viols = append(viols, foundViolation{Violation: v, Scenario: "static", Sc: -1, Repro: 5})
+		}
+	}
 	results := make(chan result, nw)
 	var workers []*wproc
 	idle := []*wproc{}
@@ -577,6 +590,9 @@ func coordinatorMain(h *Harness) {
 			cov[k] = v
 		}
 	}
+	for k, v := range staticCov {
+		cov[k] = v
+	}
 	if len(total.Samples) == 0 {
 		cov["samples"] = []any{map[string]any{"scenario": scs[0].Name, "choices": []string{}}}
 	}
@@ -612,6 +628,18 @@ func replayMain(h *Harness) {
 	}
 	if r.Tier != "" {
 		*flagTier = r.Tier
+	}
+	if r.Scenario == "static" && h.Static != nil {
+		sv, _ := h.Static()
+		for _, x := range sv {
+			if x.Sig == r.Sig {
+				fmt.Printf("violated: %s\n  %s\n", x.Sig, x.Detail)
+				fmt.Printf("VIOLATION property=%s replay=%s\n", h.Property, *flagReplay)
+				os.Exit(1)
+			}
+		}
+		fmt.Println("replay: recorded violation did not occur on this tree")
+		os.Exit(0)
 	}
 	for _, sc := range h.Scenarios(*flagTier) {
 		if sc.Name != r.Scenario {
